@@ -202,52 +202,56 @@
 (define-syntax delay-force
   (syntax-rules ()
     ((delay-force expression)
-     (make-promise #f (lambda () expression)))))
+     (list (cons #f (lambda () expression))))))
 
 (define-syntax delay
    (syntax-rules ()
      ((delay expression)
-      (delay-force (make-promise #t expression)))))
+      (delay-force (list (cons #t expression))))))
 
 (define make-promise
     (lambda (done? proc)
       (list (cons done? proc))))
 
 (define (force promise)
-    (if (promise-done? promise)
-        (promise-value promise)
-        (let ((promise* ((promise-value promise))))
-          (unless (promise-done? promise)
-            (promise-update! promise* promise))
-          (force promise))))
+  (letrec
+   ((promise-done?
+     (lambda (x) (car (car x))))
+    (promise-value
+     (lambda (x) (cdr (car x))))
+    (promise-update!
+     (lambda (new old)
+       (set-car! (car old) (promise-done? new))
+       (set-cdr! (car old) (promise-value new))
+       (set-car! new (car old))))
+    (force-promise
+     (lambda (promise)
+       (if (promise-done? promise)
+           (promise-value promise)
+           (let ((promise* ((promise-value promise))))
+             (unless (promise-done? promise)
+               (promise-update! promise* promise))
+             (force-promise promise))))))
 
-(define promise-done?
-    (lambda (x) (car (car x))))
-  (define promise-value
-    (lambda (x) (cdr (car x))))
-  (define promise-update!
-    (lambda (new old)
-      (set-car! (car old) (promise-done? new))
-      (set-cdr! (car old) (promise-value new))
-      (set-car! new (car old))))
+    (force-promise promise)))
 
 (define (add1 x) (+ x 1))
 (define (sub1 x) (- x 1))
 (define (newline) (display #\newline))
 
-(define (any? proc list)
-    (and (pair? list)
-        (or (proc (car list))
-             (any? proc (cdr list)))))
-
-(define (map1 f xs)
-  (if (null? xs)
-      '()
-      (cons (f (car xs)) (map1 f (cdr xs)))))
-
 (define (map f xs . xss)
   (letrec
-   ((map-all
+   ((any?
+     (lambda (proc list)
+       (and (pair? list)
+            (or (proc (car list))
+                (any? proc (cdr list))))))
+    (map1
+     (lambda (f xs)
+       (if (null? xs)
+           '()
+           (cons (f (car xs)) (map1 f (cdr xs))))))
+    (map-all
      (lambda (xss)
        (if (any? null? xss)
            '()
@@ -258,7 +262,17 @@
 
 (define (for-each f xs . xss)
   (letrec
-   ((for-each-all
+   ((any?
+     (lambda (proc list)
+       (and (pair? list)
+            (or (proc (car list))
+                (any? proc (cdr list))))))
+    (map1
+     (lambda (f xs)
+       (if (null? xs)
+           '()
+           (cons (f (car xs)) (map1 f (cdr xs))))))
+    (for-each-all
      (lambda (xss)
        (if (any? null? xss)
            void
